@@ -1,25 +1,26 @@
 #!/bin/bash
-# Confirms a sub-agent's seeded change in its scratch worktree, then runs the checks against it on /repo
-# (apply -> run -> undo).  Usage: confirm_seed.sh <id> [worktree] [outdir]
+# Confirms a sub-agent's seeded change in its scratch worktree (tests as on the unchanged tree, demo fails with the
+# change and passes without it), then runs all checks against a scratch copy of /repo/amr_kitchen with the patch applied.
+# Usage: confirm_seed.sh <id> [worktree] [outdir]
 id=$1; wt=${2:-/tmp/wt/$id}; out=${3:-/tmp/seed_out/$id}
 set -u
-echo "== $id: patch"; git -C $wt diff --stat | tail -3
+echo "== $id: patch"; git -C $wt diff HEAD --stat -- amr_kitchen | tail -3
+git -C $wt diff HEAD -- amr_kitchen > $out/patch.confirmed.diff
 echo "== tests on the changed tree"
 (cd $wt && /venv/bin/python -m pytest -q -p no:cacheprovider --timeout=900 2>&1 | grep -E "passed|failed" | tail -2)
 echo "== demo with the change (must fail)"
-(cd $wt && PYTHONPATH=$wt timeout 900 /venv/bin/python $out/demo.py > /tmp/demo_with.log 2>&1; echo "exit=$?"; tail -4 /tmp/demo_with.log | cut -c1-200)
-git -C $wt diff -- amr_kitchen > $out/patch.confirmed.diff
-git -C $wt checkout -- amr_kitchen
+(cd $wt && PYTHONPATH=$wt timeout 900 /venv/bin/python $out/demo.py > $out/demo_with.log 2>&1; echo "exit=$?"; tail -4 $out/demo_with.log | cut -c1-200)
+git -C $wt checkout HEAD -- amr_kitchen
 echo "== demo without the change (must pass)"
-(cd $wt && PYTHONPATH=$wt timeout 900 /venv/bin/python $out/demo.py > /tmp/demo_without.log 2>&1; echo "exit=$?"; tail -2 /tmp/demo_without.log | cut -c1-200)
+(cd $wt && PYTHONPATH=$wt timeout 900 /venv/bin/python $out/demo.py > $out/demo_without.log 2>&1; echo "exit=$?"; tail -2 $out/demo_without.log | cut -c1-200)
 git -C $wt apply $out/patch.confirmed.diff
-echo "== checks against the change (applied to /repo, then undone)"
-if ! git -C /repo apply --check $out/patch.confirmed.diff 2>/dev/null; then echo "PATCH DOES NOT APPLY to /repo"; exit 3; fi
-git -C /repo apply $out/patch.confirmed.diff
+rm -rf $wt/test/plt_tmp
+echo "== checks against the change (scratch copy of /repo/amr_kitchen + patch)"
+tmp=$(mktemp -d /tmp/vk_conf.XXXX); cp -r /repo/amr_kitchen $tmp/; 
+if ! patch -p1 -s -d $tmp -i $out/patch.confirmed.diff; then echo "PATCH DOES NOT APPLY to /repo"; rm -rf $tmp; exit 3; fi
 for c in C01 C02 C03 C04 C05 C06 C07 C08 C09 C10 C11 C12 C13 C14 C15 C16 C17 C18 C19 C20; do
-  r=$(VERIF_EVIDENCE_DIR=/tmp/ev_seed /venv/bin/python /verif/run_check.py $c --tier thorough 2>&1); rc=$?
-  if [ $rc -ne 0 ]; then echo "-- $c exit=$rc"; echo "$r" | grep -E "^FINDING|^ANALYSIS" | cut -c1-330 | head -6; fi
-done
-git -C /repo checkout -- . ; rm -rf /tmp/ev_seed
-git -C /repo status --short | grep -v "test/plt_tmp" | head -3
+  ( r=$(VERIF_EVIDENCE_DIR=$tmp/ev_$c /venv/bin/python /verif/run_check.py $c --tier thorough --repo $tmp 2>&1); rc=$?
+    if [ $rc -ne 0 ]; then echo "-- $c exit=$rc"; echo "$r" | grep -E "^FINDING|^ANALYSIS" | cut -c1-330 | head -6; fi ) > $tmp/out_$c.txt &
+done; wait
+cat $tmp/out_C*.txt; rm -rf $tmp
 echo "== done $id"
